@@ -562,9 +562,23 @@ def families(tier):
     return [fam_read(n) for n in READS] + [fam_write(n) for n in WRITES]
 
 
+def tv_post(tier):
+    """translation validation of the trusted SQL interpreter (DESIGN 3.3):
+    random API conversations on SymDB (concrete mode) vs real SQLite"""
+    import os
+    from engine import tv
+    base = int(os.environ.get('VERIF_SEED', '0') or 0) * 1000
+    n = 3 if tier == 'quick' else 24
+    r = tv.validate(range(base, base + n))
+    r['what'] = ('symbolic-DB interpreter in concrete mode vs SQLite under '
+                 'the same real application: status, JSON body, headers of '
+                 'every response and the canonical final state must agree')
+    return r
+
+
 if __name__ == '__main__':
     sys.exit(runner.run_check(
-        'C11', families, functions=FUNCTIONS,
+        'C11', families, functions=FUNCTIONS, post=tv_post,
         assumptions=['routes claimed: the read and write routes listed in '
                      'FUNCTIONS; other routes (resource class / trait '
                      'catalogue, reshaper, POST allocations, provider '
